@@ -7,19 +7,23 @@ ID = "C13"; MODEL = "life"; IMPL = "life"
 COQ_PROP = "Properties/C13.v"; COQ_DIRS = ["Common", "Life"]
 COQ_MODULE = "Life.Model"; RUN_FN = "run"
 THEOREMS = ["C13_contained", "C13_errors_exact", "C13_ok_only_if_no_uncaught_panic", "C13_globals_released",
-            "C13_others_as_if_silent", "C13_stereotype_in_force"]
+            "C13_others_as_if_silent", "C13_stereotype_in_force", "C13_errors_exact_full", "C13_ok_iff", "C13_others_teardown"]
 QUICK_N = 2500; THOROUGH_N = 120000
 RULE = ("scripts as for C09 (2..4 scripted modules with handler / start / task / end programs, injected messages) with panic!() placed in "
         "handle_message, at_sim_start (initial and restarts), at_sim_end and in spawned tasks: every (module, callback kind, program, "
         "position) of a healthy base simulation, both stereotypes (on_panic_catch true / false), set_stereotyp(catch | no catch) from "
         "callbacks and tasks -- in the very callback that panics, in an earlier event, in another program, before a restart --, one or "
-        "several panicking modules, panics after a shutdown request in the same callback; each script is simulated twice in one "
+        "several panicking modules, panics after a shutdown request in the same callback, task handles given to join() or try_join() "
+        "(tasks that finish, panic, are cancelled by a shutdown or are still asleep at the end), a family in which the dead module's "
+        "left-over timers prolong the run and the other modules act in at_sim_end; each script is simulated twice in one "
         "process, and a third time with the panics of one module replaced by 'quiet' (falls silent) to compare the other modules' logs.  "
         "non-trivial = distinct script whose run contains a callback panic and a later event of another module")
 TRUSTED = c09.TRUSTED + [
     "a callback panic is observed through the record the scripted callback writes just before panic!() (it carries the on_panic_catch "
     "flag read from current().stereotyp() at that moment); set_stereotyp calls are logged by the script action that makes them; the "
-    "error list is read from the RuntimeError returned by Runtime::finish (PanicError / JoinError paths)",
+    "error list is read from the RuntimeError returned by Runtime::finish (PanicError / JoinError paths; the JoinError kind from its "
+    "Debug form); join() / try_join() calls and the end of every task (completed / about to panic / future dropped) are logged by the "
+    "scripted code",
     "'falls silent' (the comparison run of others_as_if_silent) is the script action quiet: request shutdown() unless a request is pending, "
     "return, and let the tasks polled in that event end without acting"]
 ASSUMPTIONS = c09.ASSUMPTIONS
@@ -27,32 +31,46 @@ CLAIM = dict(
     text="Machine-checked (Coq 8.16, axiom-free) for the model of unwind.rs/events.rs/ctx.rs/mod.rs (Harness::exec/catch as: the rest of "
          "the callback and the yield are skipped, the module is deactivated, a PanicError is recorded unless Stereotyp.on_panic_catch as "
          "read when the panic is caught, i.e. after the callback), "
-         "for every script of 2..4 modules with panics anywhere in handle_message / at_sim_start / at_sim_end / tasks, any number of "
+         "for every script of 2..4 modules with panics anywhere in handle_message / at_sim_start / at_sim_end / tasks, task handles given "
+         "to join() or try_join(), any number of "
          "panicking modules, both stereotypes and set_stereotyp anywhere in callbacks and tasks: (1) contained: after a callback of m panicked no start-up stage and no dispatched event holds any record of m "
          "(no handler, wake-up, task step, send) until a restart event of m, which exists only if m itself requested "
          "shutdow_and_restart before it panicked; (2) errors_exact + stereotype_in_force: the PanicError entries of the returned error are "
          "exactly the callback panics caught while the module's stereotype in force does not catch -- in force = the last set_stereotyp "
          "of the module before the panic, in the panicking callback itself or earlier, across shutdown / restart, else the configured "
-         "one --, one per panic, in the order of the panics (so Ok only if there is none); (3) globals_released: "
+         "one --, one per panic, in the order of the panics; errors_exact_full: the complete returned list, entry by entry: the "
+         "PanicErrors of start-up and dispatched events in order, then per module in tree order either the PanicError of its at_sim_end "
+         "callback (join section skipped) or its join errors -- try_join handles first, in spawn order over all incarnations, a Paniced "
+         "entry for each panicked task; then the join handles in that order: NotFinished for a task that has not ended, Paniced, "
+         "Tokio(cancelled) for a task dropped with the tokio runtime of an earlier incarnation -- where handles and task fates are read "
+         "off the trace (spawn / task-end records); ok_iff: run() returns Ok exactly if that list is empty; (3) globals_released: "
          "after every start-up step and every dispatched event, panicking ones included, the module-context slot is empty and the event "
          "buffer drained, and the slot is empty after every at_sim_end; (4) others_as_if_silent: for every module m (any stereotype, any "
          "number of start-up stages), every record of every other module during start-up and event dispatch is the same as in the run where m's "
          "callbacks fall silent (return, request shutdown unless a request is pending, polled tasks end) wherever they panic -- proved "
-         "as a two-phase simulation (equal worlds until the panic; afterwards equal up to events that are inert for a dead m).  Tied to "
+         "as a two-phase simulation (equal worlds until the panic; afterwards equal up to events that are inert for a dead m); "
+         "others_teardown: the tear-down (at_sim_end) records of every other module are the same in the two runs once the time stamps of "
+         "the call records are blanked (the runs may end at different instants; proved via: when the event set runs empty no module has "
+         "a pending timer or next_wakeup).  Tied to "
          "des on every invocation by differential runs (panic!() in scripted callbacks and tasks on the real runtime, set_stereotyp, "
          "RuntimeError contents, is_active samples after every event), each script simulated twice in one process (the second run must "
          "equal the first: global state stays usable) and, for callback panics, a third time in its falls-silent variant whose other "
          "modules' logs are compared; the monitor states (1), (2) (tracking the stereotype in force from the logged set_stereotyp calls "
-         "and checking the flag sampled at each panic against it), the second-simulation equality and (4) on the implementation's log.",
+         "and checking the flag sampled at each panic against it; the full error list predicted from the logged panics, join/try_join "
+         "calls and task ends), the second-simulation equality, (4) incl. the tear-down records up to their time stamp, and 'the run in "
+         "which m falls silent does not end later than the one in which it panics' on the implementation's log.",
     note="Partial: unwinding itself (that catch_unwind leaves tokio's and Rust's internal state intact, lock poisoning) is not modelled, only "
          "observed through the second simulation. Panics inside spawned tasks are caught by tokio and reported as JoinErrors by at_sim_end "
-         "(try_join); they do not deactivate the module (the property text says they should; the code does not) -- the claim covers callback "
-         "panics; JoinError entries are only checked by the monitor (each has a panicked task). (4) was false for every multi-stage module "
+         "(join / try_join); they do not deactivate the module (the property text says they should; the code does not). JoinHandles "
+         "survive shutdown/restart (reset_join_handles is only called by the AsyncFn wrapper), so a join()ed task cancelled by a shutdown "
+         "yields a Tokio(cancelled) JoinError at the end, and the tear-down goes on after an error (the early return in "
+         "Sim::at_sim_end tests the freshly swapped-in empty error) -- both modelled as the code behaves. (4) was false for every multi-stage module "
          "before 1526470 (the start-up sweep ran the later stages of a module whose stage 0 panicked) and for catching multi-stage "
          "modules before 9e87d89 (module_restart went on with the later stages after a caught panic): Refuted/C13.v, "
-         "corpus/C13/multistage_panic.txt; a runtime that samples the stereotype before the callback is the pinned variant (c) there; (4) covers start-up and event dispatch: the tear-down "
-         "records of other modules agree only up to the final time stamp (left-over wake-ups of the dead module move the end of the "
-         "simulation) -- checked by the monitor, not proved. at_sim_end is called on panicked modules too.",
+         "corpus/C13/multistage_panic.txt; a runtime that samples the stereotype before the callback is the pinned variant (c) there. "
+         "The tear-down records of other modules agree up to the final time stamp (left-over wake-ups of the dead module move the end of "
+         "the simulation): proved (others_teardown); that the silent run never ends later than the panicking one is checked by the "
+         "monitor only. at_sim_end is called on panicked modules too.",
     technique="Coq: trace invariants over a step relation (panic => inactive, inactive => no records), error-list bookkeeping, and a "
               "stuttering two-run simulation with a relational reading of the interpreter; differential correspondence check; log monitor",
     design="6/C13")
@@ -192,6 +210,11 @@ def monitor(script, out):
                 for p in ps:
                     p[:] = [("quiet",) if x[0] == "panic" else x for x in p]
             check_panics(dq, v)
+            ta = [r[3] for r in a if r[0] == R_END]
+            tv = [r[3] for r in v if r[0] == R_END]
+            if ta and tv and tv[0] > ta[0]:
+                return ("the simulation in which module %d falls silent ends at %d, later than the one in which it panics (%d): a dead "
+                        "module's left-over wake-ups can only prolong the run" % (m, tv[0], ta[0]))
             for o in range(len(d["mods"])):
                 if o != m and proj(a, o) != proj(v, o):
                     pa, pv = proj(a, o), proj(v, o)
@@ -261,6 +284,12 @@ def mechanisms(script, out):
         ms.add("run_ok_all_caught")
     if v is not None:
         ms.add("silent_variant_compared")
+        ta = [r[3] for r in a if r[0] == R_END]; tv = [r[3] for r in v if r[0] == R_END]
+        if ta and tv and ta[0] != tv[0]:
+            ms.add("silent_variant_ends_earlier")
+        if any(r[0] == R_END and r[1] != d["variant"] for r in a) and any(r[0] in (R_TASK, R_TIMER, R_SEND, R_LOG) and r[1] != d["variant"]
+                                                                       for r in phases(a)[3]):
+            ms.add("other_module_acts_in_tear_down")
         if d["mods"][d["variant"]]["stages"] > 1 and d["mods"][d["variant"]]["catch"]:
             ms.add("silent_variant_catching_multi_stage")
         if d["mods"][d["variant"]]["stages"] > 1:
@@ -339,9 +368,35 @@ def gen_script(rng):
     return encode(d)
 
 
+def fam_long_tail(rng):
+    """a module with several pending timers panics early: its left-over wake-ups keep the event loop going after the
+    last event of the run in which it falls silent; the other modules act in their at_sim_end (tear-down records are
+    compared up to the end time) and hold join()ed / try_join()ed tasks"""
+    k = rng.choice([2, 3])
+    mods = []
+    for i in range(k):
+        mods.append({"catch": rng.randint(0, 1), "join": rng.choice([0, 1, 2, 3]), "stages": rng.choice([1, 1, 2]), "bud": rng.choice([4, 8]),
+                     "start": [[]], "msg": [[("log", 1)], [("send", 0, rng.choice([0, 1, 2]), 0)]],
+                     "tasks": [[("sleep", rng.choice([1, 2, 3])), ("log", 5)] + ([("sleep", rng.choice([2, 30])), ("log", 6)] if rng.random() < 0.5 else [])
+                               for _ in range(rng.choice([0, 1, 2]))],
+                     "end": [rng.choice([("log", 30), ("send", 0, rng.choice([0, 2]), 1), ("sched", 1, 0), ("restart", 2), ("shutdown",)])
+                             for _ in range(rng.choice([0, 1, 2]))]})
+    m = rng.randrange(k)
+    mods[m]["tasks"] = [[("sleep", rng.choice([3, 5])), ("sleep", rng.choice([10, 20])), ("log", 7), ("sleep", rng.choice([5, 40])), ("log", 8)],
+                        [("sleep", rng.choice([8, 15, 25])), ("log", 9)]][:rng.choice([1, 2])]
+    mods[m]["msg"] = [[("log", 2), ("panic",)]]
+    if rng.random() < 0.3:
+        mods[m]["msg"][0].insert(1, ("restart", rng.choice([1, 4])))
+    inj = [(0, m, rng.choice([1, 2, 4]), 0)] + [(rng.choice([0, 1]), rng.randrange(k), rng.choice(TIMES), rng.randint(0, 3))
+                                                for _ in range(rng.choice([0, 1, 3]))]
+    return encode({"mods": mods, "inj": inj, "variant": m})
+
+
 def gen(rng, n):
     for i in range(n):
-        if i % 7 == 6:
+        if i % 10 == 9:
+            yield fam_long_tail(rng)
+        elif i % 7 == 6:
             yield gen_random(rng, joins=True)
         else:
             yield gen_script(rng)
